@@ -11,13 +11,18 @@ fn is_err<T>(r: Result<T, Error>) -> bool {
     std::mem::forget(r);
     b
 }
+fn ok_pair(r: Result<(usize, usize), Error>, a: usize, b: usize) -> bool {
+    let ok = matches!(&r, Ok((x, y)) if *x == a && *y == b);
+    std::mem::forget(r);
+    ok
+}
 fn ok_ptr(r: Result<VCell, Error>, want: usize) -> bool {
     let b = matches!(&r, Ok(VCell::Ptr(x)) if *x == want);
     std::mem::forget(r);
     b
 }
 
-/// as_ptr / as_argc / as_car / as_cdr / as_bp / is_pair: Ok(payload) exactly on the matching variant, Err otherwise
+/// as_ptr / as_argc / as_car / as_cdr / as_bp / as_ep / as_ip / is_pair: Ok(payload) exactly on the matching variant, Err otherwise
 /// (loop-free, full usize domain, payload-free and usize-carrying variants; values are leaked so that no drop glue runs)
 #[kani::proof]
 #[kani::unwind(2)]
@@ -25,7 +30,9 @@ fn vcell_accessors() {
     let k: u8 = kani::any();
     let a: usize = kani::any();
     let b: usize = kani::any();
-    let v = match k % 8 {
+    let v = match k % 10 {
+        8 => VCell::EnvironmentPointer(a),
+        9 => VCell::InstructionPointer(a, b),
         0 => VCell::Ptr(a),
         1 => VCell::ArgumentCount(a),
         2 => VCell::Pair(a, b),
@@ -35,15 +42,15 @@ fn vcell_accessors() {
         6 => VCell::Closure(a, b),
         _ => VCell::Undefined,
     };
-    match k % 8 {
+    match k % 10 {
         0 => assert!(ok_is(v.as_ptr(), a)),
         _ => assert!(is_err(v.as_ptr())),
     }
-    match k % 8 {
+    match k % 10 {
         1 => assert!(ok_is(v.as_argc(), a)),
         _ => assert!(is_err(v.as_argc())),
     }
-    match k % 8 {
+    match k % 10 {
         2 => {
             assert!(ok_ptr(v.as_car(), a));
             assert!(ok_ptr(v.as_cdr(), b));
@@ -55,10 +62,18 @@ fn vcell_accessors() {
             assert!(!v.is_pair());
         }
     }
-    match k % 8 {
+    match k % 10 {
         3 => assert!(ok_is(v.as_bp(), a)),
         _ => assert!(is_err(v.as_bp())),
     }
-    assert!(v.is_nil() == (k % 8 == 4));
+    match k % 10 {
+        8 => assert!(ok_is(v.as_ep(), a)),
+        _ => assert!(is_err(v.as_ep())),
+    }
+    match k % 10 {
+        9 => assert!(ok_pair(v.as_ip(), a, b)),
+        _ => assert!(is_err(v.as_ip())),
+    }
+    assert!(v.is_nil() == (k % 10 == 4));
     std::mem::forget(v);
 }
